@@ -188,6 +188,16 @@ def drop_oracle(meta, impl):
     if out != shown: return f"output holds {out} tracked values but shows {shown}"
     return None
 
+def pratt_flatten_oracle(meta, impl):
+    """C09: flattening the tree yields the consumed tokens in order (every fold keeps its operands and operator in input order;
+    checked when atoms and operators keep their tokens and the whole input was consumed)"""
+    import re as _re
+    if impl.kind != "OK" or impl.val in (None, "-") or "To" in sx(meta["g"]): return None
+    toks = [int(x) for x in _re.findall(r"T(\d+)", impl.val)]
+    if toks != list(meta["inp"]):
+        return f"the tree's tokens in order {toks} are not the input {list(meta['inp'])}"
+    return None
+
 def has_head(g, heads):
     if isinstance(g, str): return g in heads
     if isinstance(g, (list, tuple)):
@@ -211,6 +221,23 @@ def c08_hook(G, rng):
         if c < 0.7: return ["Collect", "CVec", ["IRep", rec, 0, "inf"]]
         return ["Then", rec, G.g(1)]
     return G.g(rng.randint(1, 4))
+
+def c04_hook(G, rng):
+    c = rng.random()
+    if c < 0.12: return ["Then", G.pratt(), G.g(1)] if rng.random() < 0.5 else ["IgnoreThen", G.g(1), G.pratt()]
+    if c < 0.22: return G.rec(3)
+    if c < 0.32: return G.memoize(G.g(rng.randint(2, 3)), 0.4)
+    return G.g(rng.randint(1, 4))
+def c04_trees(rng, tier):
+    """nested inputs: parse vs check on token trees"""
+    G = Gen(rng, CORE + ITER + EMIT + ["RecoverVia"] + ["NestedIn"] * 6, alpha=ALPHA, slices=False)
+    G.mws = ["MWSpan", "MWCtx"]; G.emit_bias = 0.15
+    out = []
+    for _ in range(120 if tier == "quick" else 1500):
+        g = c16_hook(G, rng)
+        for inp in inputs_for(rng, g, ALPHA, n_valid=2, n_mut=2, n_rand=1, trees=True):
+            out.append((g, inp, ["tree"]))
+    return out
 
 C01_CTORS = CORE
 C02_CTORS = ["Any", "Just", "OneOf", "NoneOf", "Then", "Or", "Map", "Filter", "OrNot", "To"] + ITER * 3 + ["MapWith", "ToSlice", "WithCtx", "IgnoreWithCtx", "JustCfg"]
@@ -279,11 +306,12 @@ SPECS = {
                 nontrivial=lambda g, inp: len(inp) > 0,
                 rule="C01/C02/C08 grammars, with lazy() at random nodes (also at the top: the only way to accept a proper prefix); each sampled accepted input is also run extended by one token; "
                      "non-trivial = non-empty input"),
-    "C04": Spec("C04", CORE + SPANS + ITER + ["RepUnit"] * 3 + EMIT + RECOVER + DECOR + CTX + ["ExtWrap"] * 3 + ["Skip"], obs_errs, sem_obs=lambda r: (r.kind,), emit_bias=0.2,
+    "C04": Spec("C04", CORE + SPANS + ITER + ["RepUnit"] * 3 + EMIT + RECOVER + DECOR + CTX + ["ExtWrap"] * 3 + ["Skip", "NestedDelims", "Lazy"], obs_errs,
+                gen_hook=lambda G, rng: c04_hook(G, rng), sem_obs=lambda r: (r.kind,), emit_bias=0.2,
                 ekinds=("rich", "simple", "empty"), ikinds=("str", "slice"),
                 nontrivial=lambda g, inp: len(inp) > 0 and has_head(g, {"IgnoreThen", "ThenIgnore", "Ignored", "To", "ToSlice",
                     "ToSpan", "DelimitedBy", "PaddedBy", "RepUnit", "Filter", "TryMap", "Validate", "Collect", "ExtWrap"}),
-                rule="grammars over every modelled constructor; each (grammar, input) is run through parse() and check(); "
+                rule="grammars over every modelled constructor (Pratt tables, recursion, memoization, nested_delimiters, lazy, extension parsers included; nested inputs on token trees); each (grammar, input) is run through parse() and check(); "
                      "extension parsers (Ext over an ExtParser with a separate check path through InputRef::parse / InputRef::check) at random nodes; "
                      "non-trivial = non-empty input and an eliding / mode-forcing combinator present"),
     "C05": Spec("C05", CORE + ITER + ["RepUnit"] * 3 + EMIT * 6 + RECOVER * 2 + ["ExtWrap"], obs_emis, ekinds=("rich",), emit_bias=0.3, n_quick=800,
@@ -303,7 +331,7 @@ SPECS = {
                 rule="C01/C02 grammars with recover_with(via_parser | skip_until | skip_then_retry_until) at random positions and nesting, and "
                      "via_parser(nested_delimiters(..)) (1..3 delimiter pairs) recovering delimited regions, with balanced / unbalanced / wrongly nested inputs; "
                      "non-trivial = a recovery node present"),
-    "C09": Spec("C09", ["Just"], obs_vv, ekinds=("rich",), ikinds=("str", "slice"), n_quick=900, n_thorough=12000,
+    "C09": Spec("C09", ["Just"], obs_vv, ekinds=("rich",), ikinds=("str", "slice"), n_quick=900, n_thorough=12000, extra=pratt_flatten_oracle,
                 gen_hook=lambda G, rng: (G.pratt() if rng.random() < 0.8 else ["Then", G.pratt(), ["OrNot", ["Just", [rng.choice([59, 43, 42])]]]]),
                 nontrivial=lambda g, inp: len(inp) >= 3,
                 rule="operator tables of 1..6 operators over 6 symbols and 4 binding powers (same symbol may be prefix, postfix and infix), tuple and Vec "
@@ -524,6 +552,7 @@ SPECS["C15"].universe = U(leaves=[["JustCfg", [A]]],
                           binary=[lambda x, y: ["IgnoreWithCtx", x, y], lambda x, y: ["ThenWithCtx", x, y]])
 SPECS["C12"].universe = dict(U(leaves=[["Var", 0]], unary=[lambda x: ["DelimitedBy", x, ["Just", [A]], ["Just", [B]]]]),
                              post=lambda g: ["Rec" if sx(g).count("(") % 2 == 0 else "RecDecl", ["Or", ["IgnoreThen", ["Just", [A]], g], ["Just", [B]]]])
+SPECS["C04"].kind_cases = c04_trees
 SPECS["C10"].kind_cases = c10_graphemes
 SPECS["C10"].all_kinds = True
 SPECS["C10"].extra_cases = c10_long
